@@ -42,6 +42,8 @@ ZMonClauses(m, ev) ==
                      (had /\ added = {} /\ m.nrot > 1) => (ev.w = m.prev[ev.k] \/ m.prev[ev.k] \in removed)>>,
                <<"C11-addition-moves-keys-only-onto-the-new-node",
                      (had /\ removed = {} /\ m.nrot > 1) => (ev.w = m.prev[ev.k] \/ ev.w \in added)>> >>
+    [] ev.e = "noop" ->          \* an add_server / remove_server call that was refused: nodes = the rotation afterwards
+         << <<"C11-a-refused-change-leaves-the-rotation-as-it-was", SeqSet(ev.nodes) = m.rot /\ Cardinality(SeqSet(ev.nodes)) = Len(ev.nodes)>> >>
     [] ev.e = "spread" ->
          (* keys spread over all servers: every node owns at least total/(4n) keys of a large corpus *)
          << <<"C11-keys-spread-over-all-servers",
